@@ -309,6 +309,27 @@ func (ch *chain) mutate(tx *hTx, std *authtypes.StdTx, bt *builtTx, mk func(sdk.
 	case "amount":
 		std.Msg = mk(bt.Amount.Add(sdk.OneInt()))
 		bt.Msg, bt.Amount = std.Msg, bt.Amount.Add(sdk.OneInt())
+	case "msgfield":
+		// another field of the message than the amount: recipient / burn target, parameter value, upgrade version,
+		// DAO action (messages that carry nothing but their signer stay as they are)
+		oldTo, oldStr := tx.To, tx.Str
+		switch tx.Kind {
+		case "send", "award", "burn":
+			tx.To = oldTo + 1
+		case "dao":
+			if tx.Amt%2 == 0 {
+				tx.To = oldTo + 1
+			} else if tx.Str == "dao_transfer" {
+				tx.Str = "dao_burn"
+			} else {
+				tx.Str = "dao_transfer"
+			}
+		case "param", "upgrade":
+			tx.Str = oldStr + " "
+		}
+		std.Msg = mk(bt.Amount)
+		tx.To, tx.Str = oldTo, oldStr
+		bt.Msg = std.Msg
 	case "fee":
 		f := std.Fee.AmountOf(sdk.DefaultStakeDenom).Add(sdk.OneInt())
 		std.Fee = sdk.NewCoins(sdk.NewCoin(sdk.DefaultStakeDenom, f))
